@@ -83,14 +83,15 @@ def wrapS : Wrap → String
 
 /-- cases:
     `{"kind":"prog","mode":…,"prog":P}` → model run, spec (null outside the documented form), the two guards;
-    `{"kind":"deco","mode":…,"fn":…,"hasName":b}` → decoration outcome, and whether the property demands acceptance;
+    `{"kind":"deco","mode":…,"fn":…,"unwrapped":…|absent,"hasName":b}` → decoration outcome, and whether the property demands acceptance;
     `{"kind":"hist","mode":…,"ops":[["enter",G,ARGS] | ["exit",i,BODYOUT]…]}` → per operation journal and outcome of the history
     machine over one manager, and of the per-use try/finally specification (null outside the documented form) -/
 def handle (c : Json) : Json :=
   let m := modeOf (jF c "mode")
   if jS (jF c "kind") == "deco" then
     let k := kindOf (jS (jF c "fn"))
-    let d := match decorate m k (jB (jF c "hasName")) with
+    let uk := if jIsNull (jF c "unwrapped") then k else kindOf (jS (jF c "unwrapped"))
+    let d := match decorate m k uk (jB (jF c "hasName")) with
       | .rejected cls => jArr [jStr "rejected", jStr cls]
       | .manager w => jArr [jStr "manager", jStr (wrapS w)]
     mkObj [("model", d), ("spec", mkObj [("mustAccept", jBool (mustAccept m k)), ("via", jStr (wrapS (expectedWrap m)))])]
